@@ -573,6 +573,33 @@ func c32One(f []string) string {
 		case <-time.After(700 * time.Millisecond):
 			return hexb(raw) + " " + hexb(direct) + " none"
 		}
+	case len(f) == 3 && f[0] == "metaeff":
+		// what the node advertises (delegate.NodeMeta) before and after a SetTags call: a refused
+		// tag set must leave the advertised meta data as it was, an accepted one must be advertised
+		p, ok1 := pu(f[1], 8)
+		tags, ok2 := c32ParseTags(f[2])
+		if !ok1 || !ok2 {
+			return "bad-op"
+		}
+		s, err := c32Node(uint8(p))
+		if err != nil {
+			return "bad-op node: " + err.Error()
+		}
+		adv := func() (res string) {
+			defer func() {
+				if r := recover(); r != nil {
+					res = "PANIC-NodeMeta"
+				}
+			}()
+			// canonical: the decoded tags, sorted (Go map order makes the raw bytes vary between calls)
+			return c32ShowTags(serf.VerifDecodeTags(5, c32liveDelegates[uint8(p)].NodeMeta(512)))
+		}
+		prev := adv()
+		verdict := "acc"
+		if err := s.SetTags(tags); err != nil {
+			verdict = "rej"
+		}
+		return prev + " " + adv() + " " + verdict
 	case len(f) == 3 && f[0] == "meta":
 		p, ok1 := pu(f[1], 8)
 		tags, ok2 := c32ParseTags(f[2])
@@ -980,6 +1007,7 @@ func c32GenCases(rng *rand.Rand, tier string) []Case {
 		}
 		out = append(out, Case{ID: fmt.Sprintf("meta-%d", i), Ops: []string{fmt.Sprintf("meta %d %s", proto, c32TagsOfSize(rng, proto, target))},
 			Nontrivial: true, Tags: []string{"meta"}})
+		out[len(out)-1].Ops = append(out[len(out)-1].Ops, strings.Replace(out[len(out)-1].Ops[len(out[len(out)-1].Ops)-1], "meta ", "metaeff ", 1))
 	}
 	// relay through the real NotifyMsg
 	for i := 0; i < nRelay; i++ {
@@ -998,6 +1026,13 @@ func c32GenCases(rng *rand.Rand, tier string) []Case {
 			}
 		}
 		out = append(out, Case{ID: fmt.Sprintf("relay-%d", i), Ops: []string{"relay " + hdr + " " + g.fields("qresp")}, Nontrivial: true, Tags: []string{"relay"}})
+		if i%4 == 0 {
+			// large wrapped replies (clusters may raise QueryResponseSizeLimit): sizes around 1 KiB, 4 KiB and up to 9 KiB
+			size := []int{1000, 1024, 1025, 1200, 4096, 5000, 9000}[rng.Intn(7)] + rng.Intn(8)
+			out = append(out, Case{ID: fmt.Sprintf("relaybig-%d", i),
+				Ops:        []string{fmt.Sprintf("relay %s %d %d %s 0 %s", hdr, g.u(32), g.u(32), hexs("big"), hexb(g.bytesN(size)))},
+				Nontrivial: true, Tags: []string{"relay-large"}})
+		}
 	}
 	return out
 }
